@@ -4,6 +4,9 @@ import (
 	"context"
 	"errors"
 	"fmt"
+	modOs "github.com/risor-io/risor/modules/os"
+	ros "github.com/risor-io/risor/os"
+	"github.com/risor-io/risor/verif/simos"
 	"os"
 	"sort"
 	"strings"
@@ -41,6 +44,10 @@ func spinc(x) { f := func() { return x }; for i := 0; i < 100000000; i++ { x = x
 func imp(k) { import cmod; return cmod.value + cmod.pre + k }
 func imp2(k) { import cmod2; return cmod2.answer + k }
 func impslow(k) { x := 0; for i := 0; i < 6; i++ { x++ }; import cmod2; for i := 0; i < 100000000; i++ { x++ }; return cmod2.answer + x }
+gx := 0
+func setg(v) { gx = v; return gx }
+func nestg() { inner := func() { deeper := func() { return gx }; return deeper() + 0 }; return inner() }
+func who() { return os.getenv("WHO") }
 worker := spawn(func() { return 7 })
 wfirst := worker.wait()
 func waitw(k) { return worker.wait() + wfirst - 7 + k }
@@ -60,10 +67,11 @@ const (
 	kStackOverflow
 	kCancelled
 	kDeadline
-	kStaleCall // Call of a function that belongs to code an intervening RunCode has replaced
+	kStaleCall    // Call of a function that belongs to code an intervening RunCode has replaced
+	kPreCancelled // entered with a context that is already cancelled (a short payload may still complete)
 )
 
-var kindNames = []string{"normal", "runtime-error", "host-panic", "frame-overflow", "stack-overflow", "cancelled", "deadline", "stale-function-call"}
+var kindNames = []string{"normal", "runtime-error", "host-panic", "frame-overflow", "stack-overflow", "cancelled", "deadline", "stale-function-call", "pre-cancelled"}
 
 type invocation struct {
 	API        string // "RunCode" | "Call"
@@ -74,6 +82,7 @@ type invocation struct {
 	IsLib      bool // RunCode of the library (state-carrying)
 	FailImport bool // the module imported by this call fails in its body
 	Background bool // runs under context.Background(), which can never be cancelled
+	CtxOS      bool // the invocation's context carries an OS of its own (WHO=req<k>)
 	Stateful   bool // a Call that changes globals and must be replayed on the model
 	OwnDelta   int  // for cancelled/deadline: steps after start at which the fault lands
 	// stale cancels: earlier invocation index -> delta steps after this
@@ -121,6 +130,12 @@ func genHistory(g *sim.Stream, f *sim.Stream) []*invocation {
 	// further Runs (which have nothing left to execute)
 	mainFamily := g.Chance(1, 3)
 	followImport := false
+	// theme: a global written through one function and read through functions
+	// nested in another, with repeated Runs in between
+	themeNested := mainFamily && g.Chance(1, 4)
+	if themeNested && n < 4 {
+		n = 4
+	}
 	for k := 0; k < n; k++ {
 		iv := &invocation{Stale: map[int]int{}}
 		if followImport && libLive {
@@ -140,8 +155,19 @@ func genHistory(g *sim.Stream, f *sim.Stream) []*invocation {
 			libLive, libSeen = true, true
 			continue
 		}
-		if mainFamily && g.Chance(1, 6) {
+		if mainFamily && !(themeNested && k == 1) && (g.Chance(1, 6) || (themeNested && g.Chance(1, 3))) {
 			iv.API, iv.Kind = "Run", kNormal
+			hist = append(hist, iv)
+			continue
+		}
+		if themeNested && k > 0 && (k == 1 || g.Chance(3, 4)) {
+			iv.API, iv.Kind = "Call", kNormal
+			if k > 1 && g.Bool() {
+				iv.Fn, iv.Args, iv.Stateful = "setg", []int{g.Range(1, 99)}, true
+			} else {
+				// (always first: the nested functions get loaded before any later Run)
+				iv.Fn = "nestg"
+			}
 			hist = append(hist, iv)
 			continue
 		}
@@ -179,7 +205,17 @@ func genHistory(g *sim.Stream, f *sim.Stream) []*invocation {
 			iv.API = "Call"
 			switch kind {
 			case kNormal:
-				switch g.Intn(9) {
+				switch g.Intn(12) {
+				case 9:
+					// a global written through one function and read by a function
+					// nested two levels deep
+					iv.Fn, iv.Args, iv.Stateful = "setg", []int{g.Range(1, 99)}, true
+				case 10:
+					iv.Fn = "nestg"
+				case 11:
+					// which OS does the invocation see: its context's or the VM's
+					iv.Fn = "who"
+					iv.CtxOS = g.Bool()
 				case 0:
 					iv.Fn, iv.Args = "add", []int{g.Intn(100), g.Intn(100)}
 				case 1:
@@ -261,6 +297,13 @@ func genHistory(g *sim.Stream, f *sim.Stream) []*invocation {
 		if kind == kCancelled || kind == kDeadline {
 			iv.OwnDelta = 1 + f.Intn(300)
 		}
+		if kind == kNormal && !iv.Stateful && !iv.IsLib && g.Chance(1, 8) {
+			// the same payload, entered with a context that is already cancelled
+			iv.Kind = kPreCancelled
+		}
+		if kind == kNormal && !iv.CtxOS && g.Chance(1, 8) {
+			iv.CtxOS = true
+		}
 		// stale cancels of earlier contexts, landing during this invocation
 		for j := 0; j < k; j++ {
 			if f.Chance(1, 3) {
@@ -281,7 +324,7 @@ func genHistory(g *sim.Stream, f *sim.Stream) []*invocation {
 				libSeen = true
 			}
 		}
-		if iv.Kind != kCancelled && iv.Kind != kDeadline && g.Chance(1, 4) {
+		if iv.Kind != kCancelled && iv.Kind != kDeadline && iv.Kind != kPreCancelled && g.Chance(1, 4) {
 			iv.Background = true
 		}
 	}
@@ -432,6 +475,13 @@ func c07ModuleDir() string {
 	return c07Dir
 }
 
+// c07ReqOS is the OS carried by the context of invocation k.
+func c07ReqOS(k int) *simos.SimOS {
+	o := simos.New()
+	o.Setenv("WHO", fmt.Sprintf("req%d", k))
+	return o
+}
+
 func runC07(rc *fw.RunCtx) {
 	g := rc.Tape.Stream("gen")
 	f := rc.Tape.Stream("fault")
@@ -447,6 +497,7 @@ func runC07(rc *fw.RunCtx) {
 		}
 		return object.Nil
 	})}
+	extra["os"] = modOs.Module()
 	var gnames []string
 	for k := range baseGlobals(extra) {
 		gnames = append(gnames, k)
@@ -470,7 +521,9 @@ func runC07(rc *fw.RunCtx) {
 		} else {
 			imp = importer.NewFSImporter(importer.FSImporterOptions{GlobalNames: gnames, SourceFS: mfs, Extensions: []string{".risor"}})
 		}
-		return risor.NewConfig(append(baseOpts(extra), risor.WithImporter(imp))...)
+		vmOS := simos.New()
+		vmOS.Setenv("WHO", "vm")
+		return risor.NewConfig(append(baseOpts(extra), risor.WithImporter(imp), risor.WithOS(vmOS))...)
 	}
 	cfg := newCfg()      // system under test
 	cfgModel := newCfg() // reference runs use their own importer
@@ -516,7 +569,11 @@ func runC07(rc *fw.RunCtx) {
 						runInv(bg, m, cfgModel, &failImport, hist[j], nil)
 					}
 				}
-				expected[k] = runInv(bg, m, cfgModel, &failImport, iv, codes[k])
+				ctxK := bg
+				if iv.CtxOS {
+					ctxK = ros.WithOS(bg, c07ReqOS(k))
+				}
+				expected[k] = runInv(ctxK, m, cfgModel, &failImport, iv, codes[k])
 			}
 			if iv.API == "RunCode" || (iv.API == "Run" && iv.IsLib) {
 				if iv.IsLib && iv.Kind == kNormal {
@@ -552,6 +609,14 @@ func runC07(rc *fw.RunCtx) {
 				ctxs[k], cancels[k] = context.Background(), func() {}
 			} else {
 				ctxs[k], cancels[k] = context.WithCancel(context.Background())
+			}
+			if iv.CtxOS {
+				ctxs[k] = ros.WithOS(ctxs[k], c07ReqOS(k))
+				rc.Hit("ctx_carries_os")
+			}
+			if iv.Kind == kPreCancelled {
+				rc.Hit("fault_pre_cancelled")
+				cancels[k]()
 			}
 			base := s.Step
 			for _, j := range sortedIntKeys(iv.Stale) {
@@ -708,6 +773,20 @@ func runC07(rc *fw.RunCtx) {
 		}
 		if iv.Kind == kStaleCall {
 			continue // only "it returned" and "later invocations are unaffected" matter
+		}
+		if iv.Kind == kPreCancelled {
+			// a short payload may complete before the watcher acts; what it may
+			// not do is fail with anything but its context's error or return a
+			// wrong value
+			if gk.Err != "" && !ctxErrCarried(gk.Raw) {
+				rc.Violate("pre-cancelled/foreign-error", "invocation %d (%s): %s", k, iv, gk.Err)
+				return
+			}
+			if gk.Err == "" && ek.Err == "" && gk.Val != ek.Val {
+				rc.Violate("pre-cancelled/wrong-value", "invocation %d (%s) returned %s; on a fresh VM it returns %s", k, iv, gk.Val, ek.Val)
+				return
+			}
+			continue
 		}
 		if iv.Kind == kCancelled || iv.Kind == kDeadline {
 			if gk.Err == "" {
